@@ -18,6 +18,9 @@ Scope notes
 import PySMT.Proofs.C13Table
 import PySMT.Proofs.C13Detect
 import PySMT.Proofs.C13Typed
+import PySMT.Proofs.C13Perm
+import PySMT.Proofs.C13Total
+import PySMT.Proofs.C13Factory
 namespace PySMT.Logics.C13
 
 local infix:50 " ≤ₜ " => fun a b => Theory.le a b = true
@@ -53,7 +56,7 @@ theorem combine_no_assertion (a b : Theory) (ha : a.init_ok = true) (hb : b.init
     Theory.combine.assert1 a b = true ∧ Theory.combine.assert2 a b = true ∧ (a.combine b).init_ok = true :=
   ⟨(Theory.combine_asserts a b).1, (Theory.combine_asserts a b).2, Theory.combine_init_ok a b ha hb⟩
 
-/-- FINDING (known, F35): without the well-formedness hypothesis the upper-bound claim is false --
+/-- FINDING (known, F45): without the well-formedness hypothesis the upper-bound claim is false --
 `Theory(integer_difference=True)` is accepted by the constructor and
 `Theory(integer_difference=True).combine(Theory())` is not above its first argument. -/
 theorem combine_ub_fails_on_illformed :
@@ -163,6 +166,50 @@ theorem most_generic_spec (ls : List Logic) (r : Logic) (h : most_generic_logic 
     (r ∈ ls ∧ ∀ x ∈ ls, x ≤ₗ r) ∧ ∀ y, (y ∈ ls ∧ ∀ x ∈ ls, x ≤ₗ y) → y = r :=
   most_generic_logic_spec ls r h
 
+/-! ## Selection does not depend on the enumeration order (the supported "lists" are frozensets) -/
+
+/-- any two enumerations of the same set of supported logics (names pairwise distinct) give the same answer,
+result or exception -/
+theorem closer_perm (sup sup' : List Logic) (tgt : Logic) (hp : sup.Perm sup') (hn : NamesUnique sup) :
+    get_closer_logic sup tgt = get_closer_logic sup' tgt := get_closer_logic_perm tgt hp hn
+
+/-- … namely, among the ≤-minimal supported logics above the target, the one with the least name -/
+theorem closer_least_name (sup : List Logic) (tgt r : Logic) (h : get_closer_logic sup tgt = .ok r) :
+    ∀ k ∈ sup, tgt ≤ₗ k → (∀ j ∈ sup, tgt ≤ₗ j → j ≤ₗ k → j = k) → r.name ≤ k.name :=
+  get_closer_logic_least_name sup tgt r h
+
+theorem most_generic_perm (ls ls' : List Logic) (hp : ls.Perm ls') :
+    most_generic_logic ls = most_generic_logic ls' := most_generic_logic_perm hp
+
+/-- `get_logic_by_name` returns a member of `LOGICS` whose name equals the argument up to case.  (That two
+members of `LOGICS` never agree up to case is checked on the real table by the harness only: `String.toLower`
+does not evaluate in the kernel in reasonable time; `table_names_unique` is about exact names.) -/
+theorem by_name_spec (n : String) (l : Logic) (h : get_logic_by_name n = .ok l) :
+    l ∈ LOGICS ∧ l.name.toLower = n.toLower := by
+  simp only [get_logic_by_name] at h
+  split at h
+  · rename_i x hx
+    cases h
+    exact ⟨List.mem_of_find?_eq_some hx, by simpa using List.find?_some hx⟩
+  · cases h
+
+/-! ## Totality of detection -/
+
+/-- some pySMT logic is above a target iff one of the six maximal ones is, iff the flags satisfy `detectable`
+(no floating point, and one of six explicit combinations: see `Proofs/C13Total.lean`) -/
+theorem detectable_iff (tgt : Logic) :
+    ((∃ k ∈ PYSMT_LOGICS, tgt ≤ₗ k) ↔ (∃ k ∈ MAXIMAL_PYSMT, tgt ≤ₗ k)) ∧
+    ((∃ k ∈ PYSMT_LOGICS, tgt ≤ₗ k) ↔ detectable tgt.quantifier_free tgt.theory = true) :=
+  ⟨exists_above_iff tgt, exists_above_iff_detectable tgt⟩
+
+open PySMT.TheoryOracle in
+/-- **for which formulas `get_logic` answers**: it returns a logic exactly when the detected theory and
+quantifier flag are `detectable`, and raises `NoLogicAvailableError` (never `IndexError`) otherwise -/
+theorem detect_total (t : Term) :
+    ((∃ L, getLogic t = .ok L) ↔ detectable t.isQF (theoryOf t) = true) ∧
+    (detectable t.isQF (theoryOf t) = false → getLogic t = .error .NoLogicAvailableError) :=
+  get_closer_pysmt_logic_total_iff { name := "Detected Logic", quantifier_free := t.isQF, theory := theoryOf t }
+
 /-! ## Detection -/
 
 open PySMT.TheoryOracle PySMT.Features in
@@ -220,7 +267,39 @@ theorem detect_covers_fails_with_int_pow :
       isIntValuedOp, isBvOp, isStrOp, ofSym, ofSort, theoryOf, rule, funBase, withUF, symTheory, theoryFromType,
       Term.app, Term.var, Term.sym, Term.int, Sym.var, Sym.isFn, Theory.covers, Theory.combine,
       Theory.combine.integer_difference, Theory.combine.real_difference, Theory.default, Theory.copy,
-      Theory.set_linear]
+      Theory.set_linear, Theory.set_difference_logic]
+
+/-- `((x - y) - z) <= 0` over the integers -/
+def idlWitness : Term :=
+  .node .le [.node .minus [.node .minus [Term.var "x" .int, Term.var "y" .int] .none, Term.var "z" .int] .none,
+             Term.int 0] .none
+
+open PySMT.TheoryOracle PySMT.Features PySMT.Spec in
+/-- FINDING (known, F47): the difference-logic flags are *unsound*.  `walk_combine` treats `-` like a Boolean
+connective, so any term built from variables, numerals and subtraction keeps `integer_difference`, also when
+three variables are involved, when `-` sits under a function / ITE / array index, or when the right-hand side is
+not a numeral: `((x - y) - z) <= 0` is well-sorted, is **not** a difference constraint (`Features.isDL`, see
+`Spec/Features.lean` for the definition used), yet the detected theory claims integer difference logic and
+`get_logic` labels the formula `QF_IDL` -- a logic that cannot express it.  (The positive statement
+`(theoryOf t).integer_difference = true → isDL .int t` is therefore false; `covers` deliberately ignores the
+difference flags, so `detect_covers` is not affected.) -/
+theorem detect_idl_unsound :
+    HasType idlWitness .bool ∧ (theoryOf idlWitness).integer_difference = true ∧
+    isDL .int idlWitness = false ∧ getLogic idlWitness = .ok QF_IDL := by
+  have w1 : theoryOf idlWitness = QF_IDL.theory := by
+    simp [idlWitness, theoryOf, rule, combineList, foldCombine, symTheory, theoryFromType, Term.var, Term.sym,
+      Term.int, Sym.var, Sym.isFn, Theory.combine, Theory.combine.integer_difference,
+      Theory.combine.real_difference, Theory.default, QF_IDL]
+  have w3 : idlWitness.isQF = true := by
+    simp [idlWitness, Term.isQF, Term.subterms, Op.isQuantifier, Term.op, Term.var, Term.sym, Term.int]
+  refine ⟨?_, by rw [w1]; rfl, ?_, ?_⟩
+  · rw [hasType_iff_sortOf]
+    simp [idlWitness, Term.sortOf, allSome, sigOf, Term.var, Term.sym, Term.int, Sym.var, isNum]
+  · simp only [idlWitness, isDL, dlOk, Term.typeOf, Term.var, Term.sym, Term.int, Sym.var, List.map_cons,
+      List.map_nil, List.head?_cons, Option.bind_some]
+    decide
+  · simp only [getLogic, w1, w3]
+    decide +kernel
 
 open PySMT.TheoryOracle PySMT.Features in
 /-- the same for every term pySMT's own checker accepts with the constructors' arities (`Term.wf`, which
@@ -249,6 +328,37 @@ theorem detect_logic_covers (t : Term) (τ : Ty) (L : Logic) (h : Spec.HasType t
   have hs := getLogic_spec t L hl
   ⟨hs.1, (covers_iff _ _).2 (hs.2.1.trans (covers_of_hasType t τ h hp)), hs.2.2⟩
 
+/-! ## Handing a formula to a solver, labelling a script -/
+
+open PySMT.FactorySelect in
+/-- `Factory._get_solver_class` (model: `Impl/FactorySelect.lean`, compared with the real Factory on
+harness-registered solver classes): the class returned is one of the registered ones (the named one if a name
+was given) and the logic the solver is created with is a closest logic **of that class's own `LOGICS`** for the
+effective target: the requested logic if any, else the default logic (no name given) or the class's most generic
+/ the default logic (name given). -/
+theorem factory_select_spec (sl : List SolverClass) (prefs : List String) (d : Logic) (name : Option String)
+    (logic : Option Logic) (S : SolverClass) (L : Logic)
+    (h : getSolverClass sl prefs d name logic = .ok (S, L)) :
+    S ∈ sl ∧ (∀ n, name = some n → S.name = n) ∧
+    ∃ eff, (∀ g, logic = some g → eff = g) ∧ (name = Option.none → logic = Option.none → eff = d) ∧
+      (L ∈ S.logics ∧ eff ≤ₗ L ∧ ¬ ∃ k ∈ S.logics, eff ≤ₗ k ∧ k ≤ₗ L ∧ k ≠ L) :=
+  getSolverClass_spec h
+
+open PySMT.FactorySelect in
+/-- so a formula whose logic was requested is never handed to a solver logic that cannot express it -/
+theorem factory_select_covers (sl : List SolverClass) (prefs : List String) (d g : Logic)
+    (name : Option String) (S : SolverClass) (L : Logic)
+    (h : getSolverClass sl prefs d name (some g) = .ok (S, L)) :
+    L ∈ S.logics ∧ g ≤ₗ L ∧ L.covers g = true := getSolverClass_covers h
+
+open PySMT.FactorySelect PySMT.TheoryOracle PySMT.Features in
+/-- the `set-logic` that `smtlibscript_from_formula` writes (closest SMT-LIB logic of the detected one, or the
+detected pySMT logic itself when SMT-LIB has none) enables every feature of the formula -/
+theorem script_logic_covers (t : Term) (τ : Ty) (L : Logic) (ht : Spec.HasType t τ) (hp : noPow t = true)
+    (h : scriptLogic t = .ok L) :
+    L.theory.covers (features t) = true ∧ (hasQuant t = true → L.quantifier_free = false) :=
+  ⟨(covers_iff _ _).2 (scriptLogic_covers t τ L ht hp h).1, (scriptLogic_covers t τ L ht hp h).2⟩
+
 /-! ## Non-vacuity -/
 
 -- hypotheses of `combine_ub` / `combine_wf` are satisfiable, and the statement is not trivial
@@ -267,6 +377,16 @@ example : most_generic_logic [QF_LIA, LIA, LRA, UFLIRA] = .ok UFLIRA ∧
     most_generic_logic [QF_LIA, QF_LRA] = .error .NoLogicAvailableError := by decide +kernel
 example : get_closer_smtlib_logic QF_BOOL = .ok QF_UF ∧ get_closer_smtlib_logic BOOL = .ok LRA := by
   decide +kernel
+-- hypotheses of `closer_perm` hold for the real supported lists; `detectable` is neither empty nor everything
+example : NamesUnique PYSMT_LOGICS ∧ NamesUnique SMTLIB2_LOGICS := by
+  constructor <;> (unfold NamesUnique; decide +kernel)
+example : detectable true QF_UFIDL.theory = true ∧ detectable false QF_AX.theory = false ∧
+    detectable true (QF_SLIA.theory.combine QF_LRA.theory) = false := by decide
+-- `getSolverClass` does return something: by preference, by name, and with the default logic
+example : PySMT.FactorySelect.getSolverClass [⟨"a", [QF_LRA, QF_UFLIA]⟩, ⟨"b", [QF_NIA]⟩] ["b", "a"] QF_UFLIRA
+      Option.none (some QF_LIA) = .ok (⟨"b", [QF_NIA]⟩, QF_NIA) ∧
+    PySMT.FactorySelect.getSolverClass [⟨"a", [QF_LIA, LIA]⟩] [] QF_UFLIRA (some "a") Option.none =
+      .ok (⟨"a", [QF_LIA, LIA]⟩, LIA) := by decide +kernel
 -- hypotheses of `closer_total` hold for the real supported lists
 example : NoTwins PYSMT_LOGICS ∧ NoTwins SMTLIB2_LOGICS := ⟨pysmt_no_twins, smtlib2_no_twins⟩
 example : ∃ k ∈ PYSMT_LOGICS, Logic.le ⟨"Detected Logic", true, QF_UFIDL.theory⟩ k = true :=
@@ -287,7 +407,7 @@ macro "eval_terms" : tactic => `(tactic|
     Term.subterms, Op.isQuantifier, Term.op, theoryOf, rule, symTheory, theoryFromType, combineList, foldCombine,
     hasFreeVars, nonConstant, Term.fv, isZero, Term.mkEq, Term.mkForall, Term.var, Term.sym, Term.real, Sym.var,
     Sym.isFn, Theory.combine, Theory.combine.integer_difference, Theory.combine.real_difference, Theory.default,
-    Theory.copy, Theory.set_strings, Theory.set_linear])
+    Theory.copy, Theory.set_strings, Theory.set_linear, Theory.set_difference_logic, divCore])
 example : inFragment exIntToStr = true ∧ (featuresIntrinsic exIntToStr).strings = true ∧
     (theoryOf exIntToStr).strings = true := by eval_terms
 example : inFragment exBound = true ∧ (featuresIntrinsic exBound).bit_vectors = true ∧
